@@ -204,4 +204,49 @@ def rowSpec (r : Row) (args : List Int) : Option Nat :=
   | _, _ => none
 
 
+/-! ### memory: which store / load instruction a value of each type goes through
+
+A store writes the low `k` bits of the temporary; a load reads them back, sign- or zero-extending into the class of its result. -/
+
+def storeBits : String → Option Nat
+  | "storeb" => some 8
+  | "storeh" => some 16
+  | "storew" => some 32
+  | "storel" => some 64
+  | _ => none
+
+/-- contents of the cell after the store -/
+def memStore (op : String) (x : Nat) : Option Nat := (storeBits op).map fun k => x % 2 ^ k
+
+/-- signed reading of a `k`-bit cell -/
+def sxk (k : Nat) (m : Nat) : Int := if m ≥ 2 ^ (k - 1) then (m : Int) - ((2 ^ k : Nat) : Int) else m
+
+/-- the temporary (class `c`) after loading a cell holding `m` -/
+def memLoad (c : Cls) (op : String) (m : Nat) : Option Nat :=
+  match op with
+  | "loadsb" => some (pat c (sxk 8 (m % 256)))
+  | "loadub" => some (m % 256)
+  | "loadsh" => some (pat c (sxk 16 (m % 65536)))
+  | "loaduh" => some (m % 65536)
+  | "loadw" | "loadsw" => some (pat c (sxk 32 (m % 4294967296)))
+  | "loaduw" => some (m % 4294967296)
+  | "loadl" => some (pat c (m % 18446744073709551616))
+  | _ => none
+
+structure MemRow where
+  ty : Ty
+  store : String
+  load : String
+  cls : Cls                -- class of the load's result
+  deriving DecidableEq, Repr, Inhabited
+
+/-- the store / load pair known (Proofs/QbeSem.lean `mem_roundtrip`) to give back the canonical temporary -/
+def expectedMem (t : Ty) : String × String :=
+  if t.bits = 8 then ("storeb", if t.signed then "loadsb" else "loadub")
+  else if t.bits = 16 then ("storeh", if t.signed then "loadsh" else "loaduh")
+  else if t.bits = 32 then ("storew", if t.signed then "loadw" else "loaduw")
+  else ("storel", "loadl")
+
+def memRowOk (r : MemRow) : Bool := (r.store, r.load) == expectedMem r.ty && r.cls == r.ty.cls
+
 end FerretVerif.QbeSem
